@@ -379,6 +379,50 @@ def iso1(ctx):
         ctx.missing('sites', 'no queue-keyed call site found')
 
 
+
+def _origins(b, l, kind):
+    """normalised origins of a local: ('param', i) | ('place', place) | ('other',)"""
+    if l is None:
+        return [('other',)]
+    if kind == 'str':
+        return [o if o[0] in ('param', 'place') else ('other',) for o in str_origins(b, l)]
+    out = []
+    for o in b.trace_local(l):
+        if o[0] == 'param':
+            out.append(('param', o[1]))
+        elif o[0] == 'place':
+            out.append(('place', o[2]))
+        else:
+            out.append(('other',))
+    return out
+
+
+def expand_arm_sites(ctx, b, region):
+    """MemQueues call sites of a replay arm, looking one level into local helper fns that receive the
+    queue map. Yields (host_body, CallSite, resolve) where resolve(local, kind) gives the origins of a
+    host local expressed in the arm's body (helper parameters are mapped to the call-site arguments)."""
+    for cs in b.calls:
+        if cs.point not in region or cs.is_macro():
+            continue
+        if cs.path.startswith('mem::queues::MemQueues::'):
+            yield (b, cs, (lambda l, kind, bb=b: _origins(bb, l, kind)))
+        elif cs.node is not None and not cs.path.startswith('mem::') and any(op_local(a) is not None and 'mem::queues::MemQueues' in b.local_ty(op_local(a)) for a in cs.args):
+            h = ctx.f.bodies[cs.node]
+            for cs2 in h.calls:
+                if not cs2.path.startswith('mem::queues::MemQueues::'):
+                    continue
+
+                def res(l, kind, h=h, cs=cs):
+                    out = []
+                    for o in _origins(h, l, kind):
+                        if o[0] == 'param':
+                            out.extend(_origins(b, cs.arg_local(o[1] - 1), kind))
+                        else:
+                            out.append(('other',))
+                    return out
+                yield (h, cs2, res)
+
+
 @rule('ISO2', ['C18'], floor=6, template='provenance')
 def iso2(ctx):
     """Replay applies each entry to the entry's own queue."""
@@ -391,16 +435,14 @@ def iso2(ctx):
     n = 0
     for k, (edge, region) in arms.items():
         seen = {}
-        for cs in b.calls:
-            if cs.point not in region or not cs.path.startswith('mem::queues::MemQueues::'):
-                continue
-            for (i, al) in str_args(b, cs):
+        for (host, cs, res) in expand_arm_sites(ctx, b, region):
+            for (i, al) in str_args(host, cs):
                 n += 1
-                org = str_origins(b, al)
+                org = res(al, 'str')
                 ok = bool(org) and all(o[0] == 'place' and any(e['k'] == 'downcast' and e.get('variant') == k for e in o[1]['p']) and place_fields(o[1]) and place_fields(o[1])[-1][1] == 'queue' for o in org)
                 kk = '%s:%s' % (k, cs.path.split('::')[-1])
                 seen[kk] = seen.get(kk, 0) + 1
-                ctx.check(ok, '%s#%d' % (kk, seen[kk]), where(b, cs.point), 'replay of %s is keyed by the entry\'s own queue field' % k,
+                ctx.check(ok, '%s#%d' % (kk, seen[kk]), where(host, cs.point), 'replay of %s is keyed by the entry\'s own queue field' % k,
                           'replay applies a %s entry to a queue other than the one named in the entry' % k)
     if n == 0:
         ctx.missing('sites', 'no keyed call in the replay arms')
@@ -611,8 +653,8 @@ def rp1(ctx):
     arms = replay_arms(ctx, b, cs0)
     n = 0
     for k, (edge, region) in arms.items():
-        for cs in b.calls:
-            if cs.point not in region or cs.node is None:
+        for (host, cs, res) in expand_arm_sites(ctx, b, region):
+            if cs.node is None:
                 continue
             cb = ctx.f.bodies[cs.node]
             # role: MemQueues fn taking (&mut self, &str, u64) that builds a queue with_next_position
@@ -620,9 +662,9 @@ def rp1(ctx):
                 continue
             n += 1
             al = cs.arg_local(2)
-            org = b.trace_local(al) if al is not None else []
-            ok = bool(org) and all(o[0] == 'place' and any(e['k'] == 'downcast' and e.get('variant') == k for e in o[2]['p']) and place_fields(o[2])[-1][1] == 'position' for o in org)
-            ctx.check(ok, '%s:%s' % (k, cs.path.split('::')[-1]), where(b, cs.point), 'position argument = the %s entry\'s own position field' % k,
+            org = res(al, 'val')
+            ok = bool(org) and all(o[0] == 'place' and any(e['k'] == 'downcast' and e.get('variant') == k for e in o[1]['p']) and place_fields(o[1]) and place_fields(o[1])[-1][1] == 'position' for o in org)
+            ctx.check(ok, '%s:%s' % (k, cs.path.split('::')[-1]), where(host, cs.point), 'position argument = the %s entry\'s own position field' % k,
                       'replay re-aligns the queue with a position that is not the one stored in the %s entry' % k)
     if n < 2:
         ctx.missing('ack-sites', 'expected 2 position re-alignment calls in the replay arms, found %d' % n)
